@@ -7,3 +7,8 @@ package signature
 //@   trusted
 //@   pure
 //@   ensures result == (k == cmp)
+
+//@ func PublicKey.MarshalBinary
+//@   trusted
+//@   modifies nothing
+//@   ensures err == nil && data != nil && bytesId(data) == uf("pkBytes", k)
